@@ -98,6 +98,37 @@ func run(d *props.Def, tier, repo, verif string, seed int, replay string) (code 
 	c.Explain, c.NotCov = d.Explain, d.NotCov
 	c.RunControls(pre)
 	d.Run(c)
+	// Second pass with same-package helpers explored inline, only when the first pass left something undischarged:
+	// an obligation discharged in either pass is discharged (both passes are sound; the second sees through helper
+	// functions extracted from — or called by — the anchored code).
+	if c.Failing() > 0 {
+		p.InstallHelperArgs()
+		an.InlineHelpers = true
+		c2 := an.NewCheck(d.ID, tier, p)
+		func() {
+			defer func() {
+				if r := recover(); r != nil {
+					c.Note("inline pass abandoned: %v", r)
+					if os.Getenv("VERIF_DEBUG") != "" {
+						fmt.Printf("inline pass panic: %v\n%s\n", r, debug.Stack())
+					}
+					c2 = nil
+				}
+			}()
+			d.Run(c2)
+		}()
+		an.InlineHelpers = false
+		if c2 != nil && os.Getenv("VERIF_DEBUG") != "" {
+			for _, o := range c2.Obls {
+				if o.Status != an.Discharged {
+					fmt.Printf("inline pass: still %v [%s] %s — %s\n", o.Status, o.Rule, o.Construct, o.Detail)
+				}
+			}
+		}
+		if c2 != nil {
+			c.MergeDischarged(c2, "decided with same-package helpers explored inline")
+		}
+	}
 	if replay != "" {
 		fmt.Printf("replay %s: property re-evaluated on the current tree; matching obligations are printed above if still violated\n", replay)
 	}
